@@ -799,7 +799,14 @@ impl<'a> crate::ranger::Store<SignedEntry> for StoreInstance<'a> {
             // insert into latest table
             let key = (&e.id().namespace().to_bytes(), &e.id().author().to_bytes());
             let value = (e.timestamp(), e.id().key());
-            tables.latest_per_author.insert(key, value)?;
+            // entries may arrive out of order: only advance the head, never move it back
+            let is_latest = match tables.latest_per_author.get(key)? {
+                Some(existing) => e.timestamp() >= existing.value().0,
+                None => true,
+            };
+            if is_latest {
+                tables.latest_per_author.insert(key, value)?;
+            }
             Ok(())
         })
     }
